@@ -47,6 +47,8 @@ def gen_case(tp, tier):
             r = tp.draw(10)
             if feat['resched'] and r < 4:
                 ret = tp.choice(DELTAS)
+            elif feat['inf'] and r >= 8:
+                ret = 'inf'        # "wait for ever": never woken again
             elif feat['raise'] and r < 6 and kind == 'func':
                 ret = 'raise'      # routine failure is C11's subject
             inner = []
@@ -693,6 +695,10 @@ def run_case(case, tape, ctx):
                 finally:
                     pass
                 ret = st['ret']
+            if ret == 'inf':
+                m.body_exit(tid, task, cname, stime, None)
+                m.bump('task-returned-inf')
+                return INF
             if ret == 'raise':
                 n_raises[0] += 1
                 m.body_exit(tid, task, cname, stime, None)
